@@ -97,6 +97,13 @@ class Runtime:
         return a % b
 
     @staticmethod
+    def mvbase(v):
+        import numpy as _np
+        if isinstance(v, _np.ndarray):
+            return v
+        return v.base
+
+    @staticmethod
     def notnone(v, name):
         if v is None:
             raise TypeError("Argument '%s' must not be None" % name)
